@@ -21,14 +21,7 @@ def sig_xarray(f):
         and not str(f.get("impl", "")).startswith("R:")
 
 
-def sig_utc_window(f):
-    # F22: a window bound carrying a UTC offset against the (always timezone-naive) time axis of a stream
-    c = f.get("case", {})
-    return isinstance(c, dict) and c.get("wform") == "utc" and str(f.get("impl", "")).startswith("R:TypeError")
-
-
-SIGNATURES = {"xarray_window_inclusive_or_half_open_ignored": sig_xarray,
-              "window_bound_with_utc_offset_raises_typeerror": sig_utc_window}
+SIGNATURES = {"xarray_window_inclusive_or_half_open_ignored": sig_xarray}
 
 
 def qcconfig_failures(rng, count):
